@@ -11,7 +11,8 @@ From NC Require Import Model.Base Model.Auth Spec.AuthSpec Proofs.AuthProofs.
    each session event (open_session, subsystem, exec fallback, hello) has a HostKeyAccepted
    before it, and HostKeyAccepted is emitted only for a reason the property allows: the
    presented key is in the known_hosts file under "host" or "[host]:port" (no key pinned),
-   it equals the pinned key, or the callback in force answered True. *)
+   it equals the pinned key, or the callback in force answered True when applied to (the host
+   name that was dialled, the fingerprint of the key the server presented). *)
 Theorem C15_verify_first : forall (c : ssh_cfg) (o : ssh_oracle),
   c_verify c = true ->
   preceded_by sensitive is_accept (fst (ssh_connect c o)) /\
@@ -25,8 +26,8 @@ Print Assumptions C15_verify_first.
 Theorem C15_reject : forall (c : ssh_cfg) (o : ssh_oracle),
   c_verify c = true -> unjustified c o ->
   none_of sensitive (fst (ssh_connect c o)) /\
-  (snd (ssh_connect c o) = Exn SSHUnknownHost \/ snd (ssh_connect c o) = Exn SSHError) /\
-  (c_pin c <> PinBad -> o_kex_ok o = true -> snd (ssh_connect c o) = Exn SSHUnknownHost).
+  (snd (ssh_connect c o) = Exn (SSHUnknownHost HHost (o_server_key o)) \/ snd (ssh_connect c o) = Exn SSHError) /\
+  (c_pin c <> PinBad -> o_kex_ok o = true -> snd (ssh_connect c o) = Exn (SSHUnknownHost HHost (o_server_key o))).
 Proof. exact c15_reject. Qed.
 Print Assumptions C15_reject.
 
@@ -39,11 +40,40 @@ Theorem C15_auth_fail : forall (c : ssh_cfg) (o : ssh_oracle),
   none_of is_auth_ok (fst (ssh_connect c o)) /\
   (snd (ssh_connect c o) = Exn Authentication \/
    (none_of is_attempt (fst (ssh_connect c o)) /\
-    (snd (ssh_connect c o) = Exn SSHUnknownHost \/ snd (ssh_connect c o) = Exn SSHError))) /\
+    (snd (ssh_connect c o) = Exn (SSHUnknownHost HHost (o_server_key o)) \/ snd (ssh_connect c o) = Exn SSHError))) /\
   (c_pin c <> PinBad -> o_kex_ok o = true -> snd (hostkey_phase c o) = true ->
    snd (ssh_connect c o) = Exn Authentication).
 Proof. exact c15_auth_fail. Qed.
 Print Assumptions C15_auth_fail.
+
+(* The inputs of the unknown-host callback are part of the contract.  For every configuration,
+   every oracle and EVERY callback function o_cb : host name -> key (fingerprint) -> bool:
+   (1) the caller's callback is invoked only with (the dialled host name, the fingerprint of the
+   key the server presented), and only when verification is on and it is the callback in force;
+   (2) SSHUnknownHostError carries that host name and that fingerprint;
+   (3) an acceptance on the caller's callback's authority comes immediately after it was asked
+   about exactly those arguments, and its verdict ON THOSE ARGUMENTS was True (what it would
+   say about a key stored in known_hosts, or about the "[host]:port" name, does not count);
+   (4) a refusal while the caller's callback is in force: it was asked about exactly those
+   arguments and said no, nothing else happened;
+   (5) connect depends on the callback through that single application only: any other callback
+   that agrees with it on (dialled host, presented key) gives the same trace and result. *)
+Theorem C15_callback_args : forall (c : ssh_cfg) (o : ssh_oracle),
+  (forall s k, In (CallbackAsked s k) (fst (ssh_connect c o)) ->
+     s = HHost /\ k = o_server_key o /\ c_verify c = true /\ c_user_cb c = true /\ c_profile_cb c = false) /\
+  (forall s k, snd (ssh_connect c o) = Exn (SSHUnknownHost s k) -> s = HHost /\ k = o_server_key o) /\
+  (c_profile_cb c = false -> In (HostKeyAccepted ByCallback) (fst (ssh_connect c o)) ->
+     c_user_cb c = true /\ o_cb o HHost (o_server_key o) = true /\
+     exists post, fst (ssh_connect c o)
+                  = StartClient :: CallbackAsked HHost (o_server_key o) :: HostKeyAccepted ByCallback :: post) /\
+  (c_verify c = true -> c_profile_cb c = false -> c_user_cb c = true ->
+   forall s k, snd (ssh_connect c o) = Exn (SSHUnknownHost s k) ->
+     o_cb o HHost (o_server_key o) = false /\
+     fst (ssh_connect c o) = [StartClient; CallbackAsked HHost (o_server_key o)]) /\
+  (forall f, f HHost (o_server_key o) = o_cb o HHost (o_server_key o) ->
+     ssh_connect c (with_cb o f) = ssh_connect c o).
+Proof. exact c15_callback_args. Qed.
+Print Assumptions C15_callback_args.
 
 (* Unconditionally: every session event is preceded by a granted authentication request, and
    a successful connect sent its hello after one. *)
@@ -78,8 +108,11 @@ Definition ex_cfg (kh : list kh_entry) (p : pin) (ucb pcb : bool) : ssh_cfg :=
   {| c_verify := true; c_known_hosts := kh; c_pin := p; c_user_cb := ucb; c_profile_cb := pcb;
      c_key_files := 1; c_allow_agent := true; c_look_for_keys := false; c_password := true;
      c_subsystems := [s_netconf]; c_exec_fallback := false |}.
-Definition ex_or (k : key) (cb : bool) (auths : list bool) : ssh_oracle :=
+Definition ex_orf (k : key) (cb : hsel -> key -> bool) (auths : list bool) : ssh_oracle :=
   {| o_kex_ok := true; o_server_key := k; o_cb := cb; o_loads := [true]; o_agent_keys := 1;
+     o_default_keys := 0; o_auths := auths; o_opens := [true]; o_subs := [true]; o_hello_ok := true |}.
+Definition ex_or (k : key) (cb : bool) (auths : list bool) : ssh_oracle :=
+  {| o_kex_ok := true; o_server_key := k; o_cb := fun _ _ => cb; o_loads := [true]; o_agent_keys := 1;
      o_default_keys := 0; o_auths := auths; o_opens := [true]; o_subs := [true]; o_hello_ok := true |}.
 
 (* known under "[host]:port", third credential accepted: full run *)
@@ -94,7 +127,7 @@ Proof. vm_compute. reflexivity. Qed.
 Example C15_ex_reject :
   unjustified (ex_cfg [(HOther, kB); (HHost, kA)] PinAbsent false false) (ex_or kB true [true]) /\
   ssh_connect (ex_cfg [(HOther, kB); (HHost, kA)] PinAbsent false false) (ex_or kB true [true])
-  = ([StartClient], Exn SSHUnknownHost).
+  = ([StartClient], Exn (SSHUnknownHost HHost kB)).
 Proof.
   split; [|vm_compute; reflexivity].
   unfold unjustified; simpl. split; [reflexivity|]. split; intros [H|[H|[]]]; discriminate.
@@ -103,25 +136,51 @@ Qed.
 (* a pinned key replaces known_hosts: a different pin rejects although known_hosts matches *)
 Example C15_ex_pin_wins :
   ssh_connect (ex_cfg [(HHost, kB)] (PinKey kA) false false) (ex_or kB false [true])
-  = ([StartClient], Exn SSHUnknownHost).
+  = ([StartClient], Exn (SSHUnknownHost HHost kB)).
 Proof. vm_compute. reflexivity. Qed.
 
 (* caller's callback asked and accepting; profile override accepts without asking it *)
 Example C15_ex_callback :
   fst (ssh_connect (ex_cfg [] PinAbsent true false) (ex_or kC true [true]))
-  = [StartClient; CallbackAsked; HostKeyAccepted ByCallback; AuthAttempt (MKeyFile 0) true;
+  = [StartClient; CallbackAsked HHost kC; HostKeyAccepted ByCallback; AuthAttempt (MKeyFile 0) true;
      OpenSession; InvokeSubsystem s_netconf; SendHello] /\
   fst (ssh_connect (ex_cfg [] (PinKey kA) true true) (ex_or kC false [true]))
   = [StartClient; HostKeyAccepted ByCallback; AuthAttempt (MKeyFile 0) true;
      OpenSession; InvokeSubsystem s_netconf; SendHello].
 Proof. vm_compute. split; reflexivity. Qed.
 
+(* a callback that decides by fingerprint: the operator trusts only the key kB that is stored in
+   known_hosts for the host.  A server presenting kA (same key type) is shown to the callback
+   as kA and refused (the error names kA), under the "host" entry, the "[host]:port" entry and
+   both; the same callback accepts a server that presents kB when known_hosts is empty.  A
+   callback that accepts only when called with the "[host]:port" name never accepts: it is
+   called with the bare host name. *)
+Definition only_key (k0 : key) : hsel -> key -> bool := fun _ k => key_eqb k0 k.
+Definition only_host (s0 : hsel) : hsel -> key -> bool := fun s _ => hsel_eqb s0 s.
+Example C15_ex_callback_fingerprint :
+  ssh_connect (ex_cfg [(HHost, kB)] PinAbsent true false) (ex_orf kA (only_key kB) [true])
+  = ([StartClient; CallbackAsked HHost kA], Exn (SSHUnknownHost HHost kA)) /\
+  ssh_connect (ex_cfg [(HHostPort, kB)] PinAbsent true false) (ex_orf kA (only_key kB) [true])
+  = ([StartClient; CallbackAsked HHost kA], Exn (SSHUnknownHost HHost kA)) /\
+  ssh_connect (ex_cfg [(HHost, kB); (HHostPort, kB)] PinAbsent true false) (ex_orf kA (only_key kB) [true])
+  = ([StartClient; CallbackAsked HHost kA], Exn (SSHUnknownHost HHost kA)) /\
+  fst (ssh_connect (ex_cfg [] PinAbsent true false) (ex_orf kB (only_key kB) [true]))
+  = [StartClient; CallbackAsked HHost kB; HostKeyAccepted ByCallback; AuthAttempt (MKeyFile 0) true;
+     OpenSession; InvokeSubsystem s_netconf; SendHello] /\
+  ssh_connect (ex_cfg [(HHostPort, kB)] PinAbsent true false) (ex_orf kA (only_host HHostPort) [true])
+  = ([StartClient; CallbackAsked HHost kA], Exn (SSHUnknownHost HHost kA)) /\
+  unjustified (ex_cfg [(HHost, kB)] PinAbsent true false) (ex_orf kA (only_key kB) [true]).
+Proof.
+  repeat split; try (vm_compute; reflexivity).
+  all: simpl; intros [H|[]]; discriminate.
+Qed.
+
 (* the write-through update of l.305-312: with "host" -> kA and "[host]:port" -> kB of the
    same key type, the "[host]:port" key is accepted (as a "host" hit) and kA, although in the
    file under "host", is refused — a false reject, on the safe side of the property *)
 Example C15_ex_shadowed :
   ssh_connect (ex_cfg [(HHost, kA); (HHostPort, kB)] PinAbsent false false) (ex_or kA false [true])
-  = ([StartClient], Exn SSHUnknownHost) /\
+  = ([StartClient], Exn (SSHUnknownHost HHost kA)) /\
   fst (hostkey_phase (ex_cfg [(HHost, kA); (HHostPort, kB)] PinAbsent false false) (ex_or kB false [true]))
   = [HostKeyAccepted (ByKnownHosts HHost)].
 Proof. vm_compute. split; reflexivity. Qed.
